@@ -251,7 +251,9 @@ def check_population(m, before_ids, text, name):
         src = lines[ln - 1]
         if one(s).ACT_EL[603]() or one(s).ACT_E[603]():
             continue      # elif / else clauses: only the line is checked (whether the keyword belongs to the clause is not settled)
-        if col - 1 != len(src) - len(src.lstrip()):
+        if col < 1 or col > len(src) or src[col - 1] in ' \t' or (col > 1 and src[col - 2] not in ' \t;)'):
+            return ('statement position is not the first column of its text', ln, col, src)
+        if src[:col - 1].strip() == '' and col - 1 != len(src) - len(src.lstrip()):
             return ('statement position is not the first column of its text', ln, col, src)
     # parameter chains: R816 order = source order (by position of the value)
     for par in new('V_PAR'):
